@@ -35,6 +35,14 @@ CLAIMS = {
    note=NOTE_COMMON + "The chain from equal getters to equal a_mu is by functional determinism of the a_mu routines (they read the model only through getters: C19); "
         "running masses enter through get_mu/md/ml by contract (independent of the parametrisation).",
    technique="relational lemmas by symbolic execution of the extracted real getters + z3", design='5 C09'),
+ 'C10': dict(
+   text="SM-limit clause as relational contracts on the real kernels, for ALL parameter values: with y_f^h = diag(m_f)/v (cos(beta-alpha)=0), the model relation "
+        "v^2 = 4 MW^2 sw^2/(4 pi alpha) and m_h = m_hSM = m, amu1L and amu2L_F_neutral are independent of the common mass m (the light-Higgs terms cancel the subtracted "
+        "SM terms identically, loop functions uninterpreted); amu2L_B_EWadd is proportional to cos(beta-alpha) zeta_l; amu2L_B_Yuk(cba) - amu2L_B_Yuk(0) at m_H = m_hSM "
+        "reduces to the single term YF2 zeta_l cba (the difference coefficients a001, a501, a5z1 vanish); the three parameter fillers hand exactly the documented model getters to the kernels.",
+   note=NOTE_COMMON + "NOT decided (stated): the decoupling rate (v/M)^2 of the genuine BSM terms (an asymptotic statement outside contracts); the chain model -> y_f^h = m_f/v at cos(beta-alpha)=0 "
+        "uses C09's getter contracts; ring normalisation (sympy) is in the trusted base for the two rational-function identities.",
+   technique="relational lemmas: symbolic execution of extracted kernels + z3 NRA / ring normalisation (sympy)", design='5 C10'),
  'C18': dict(
    text="All clauses of C18 are postconditions of the ten real uncertainty functions: floors (2.3e-10 / 2e-12), non-negativity, finiteness, "
         "1L = |a2L| + delta2L, 0L = documented sum are proved in IEEE-754 arithmetic by CBMC code contracts for all doubles satisfying the stated "
